@@ -8,11 +8,14 @@ input tuple), spec/TimeEmit.tla (test-vector emission).
 (A) TLC, W=8, exhaustive: every (base, delta) pair x 4 `now`s, every tv_sec x delta x several
     tv_nsec: the REPAIRED algorithm meets the reference (Conforms, Monotone, Absorbing,
     PastNoBlock, ...); the PINNED algorithm deviates, and every deviation lies in one of five
-    named input classes (ConformsOrKnown), each of which really contains a deviation
-    (NoDev_<class> must be violated).  Spec mutants must be refuted (non-vacuity).
+    named input classes (ConformsOrKnown), each of which really contains a deviation (read off
+    the `dev` column of the table TLC emits; thorough: NoDev_<class> must be violated as well).
+    Spec mutants must be refuted (non-vacuity).  One leaf state per input tuple; the leaves
+    are checked but not stored (CONSTRAINT Prefix).
 (B) Apalache, W=64, symbolic: the same invariants over the FULL domain (all 2^64 bases, all
-    2^64 deltas, all timespecs, all admissible nows) for the repaired and the pinned algorithm,
-    plus one 64-bit counterexample per known class (witness of the pinned code's deviation).
+    2^64 deltas, all timespecs, all admissible nows) for the repaired algorithm (thorough: also
+    for the pinned algorithm, "deviates only inside the classes"), plus one 64-bit counterexample
+    per known class (witness of the pinned code's deviation).  These runs depend on the spec only.
     A stalled Apalache run is reported in the evidence, never a verdict.
 (C) Binding, harness/drv_time.c calls the REAL functions with clock_gettime interposed:
     (i)   its C oracle (transcription of Time.tla) is compared with the exhaustive W=8 table
@@ -86,7 +89,8 @@ def apalache(name, cfg, timeout, extra=()):
     os.makedirs(out, exist_ok=True)
     t0 = time.time()
     rc, so, se = sh(["apalache-mc", "check", "--config=" + cfg, "--length=0", "--out-dir=" + out] + list(extra) +
-                    ["TimeMC.tla"], timeout=timeout, cwd=SPEC, env={"JVM_ARGS": "-Xmx3g"})
+                    ["TimeMC.tla"], timeout=timeout, cwd=SPEC,
+                    env={"JVM_ARGS": "-Xmx3g -XX:ActiveProcessorCount=2"})   # few JVM helper threads: the box is shared
     res = {"name": name, "wall_s": round(time.time() - t0, 1), "rc": rc, "violated": None, "witnesses": []}
     if rc == 124:
         res["status"] = "timeout"
@@ -167,8 +171,10 @@ def model(v, tier):
     ex = ThreadPoolExecutor(max_workers=max(4, min(10, NCPU - 4)))
 
     def T(name, cfgpath, spec="TimeMC.tla", workers=2, timeout=300, env=None):
+        e = {"JAVA_TOOL_OPTIONS": "-Xmx4g -XX:ActiveProcessorCount=%d" % max(2, workers)}
+        e.update(env or {})
         jobs[name] = ex.submit(tlc_must_pass, name, spec, cfgpath, workers=workers, timeout=timeout,
-                               metaname="C12_%s.%d" % (name, os.getpid()), env=env)
+                               metaname="C12_%s.%d" % (name, os.getpid()), env=e)
 
     # (B) Apalache, W=64 (submitted first: the longest jobs)
     ato = 900 if tier == "thorough" else 170
